@@ -694,4 +694,16 @@ theorem query_display_roundtrip (ps : List Pair) (hs : Sorted ps) (hw : WF ps)
     | none => rw [hgo] at this; simp at this
     | some st => rw [hgo] at this; simpa using this
 
+/-- **every accessor, read back**: for `name=value&…` as in `query_render`, `get_first(x)` is the first written value of
+`x`, `get_last(x)` the last, `get(x)` the value if `x` was written exactly once and nothing otherwise — none of them
+panics -/
+theorem accessors_render (kvs : List Pair) (h : WF kvs) (x : Bytes) :
+    ∃ ps, query (render kvs) = some ps ∧
+      getFirst ps x = some ((kvs.map dec).filter (fun p => p.1 == x)).head? ∧
+      getLast ps x = some ((kvs.map dec).filter (fun p => p.1 == x)).getLast? ∧
+      get ps x = some (if ((kvs.map dec).filter (fun p => p.1 == x)).length = 1
+        then ((kvs.map dec).filter (fun p => p.1 == x)).head? else none) := by
+  obtain ⟨ps, h1, h2⟩ := get_all_render kvs h x
+  exact ⟨ps, h1, by simp [getFirst, h2], by simp [getLast, h2], by simp [get, h2]⟩
+
 end QuerySplit
